@@ -47,6 +47,8 @@ Definition sx_of_conv (c : conv) : sx :=
   | CEqCOpt c t f => SL [SN 6; SB c; SB t; SB f]
   | CTruthy t f => SL [SN 7; SB t; SB f]
   | CConst v => SL [SN 8; SB v]
+  | CIntClock => SL [SN 9]
+  | CParent k => SL [SN 10; SB k]
   end.
 
 Definition sx_of_emit (e : emit) : sx :=
@@ -56,7 +58,9 @@ Definition sx_of_shape (x : shape) : sx :=
   match x with ShReq => SL [SN 0] | ShOpt => SL [SN 1] | ShExcl o => SL [SN 2; SB o] end.
 
 Definition sx_of_dom (d : dom) : sx :=
-  match d with DAny => SL [SN 0] | DDec => SL [SN 1] | DEnum l => SL [SN 2; SL (map SB l)] end.
+  match d with
+  | DAny => SL [SN 0] | DDec => SL [SN 1] | DEnum l => SL [SN 2; SL (map SB l)] | DDecPos => SL [SN 3]
+  end.
 
 Definition sx_of_arule (r : arule) : sx :=
   SL [SB (a_name r); sx_of_conv (a_conv r); sx_of_emit (a_emit r); sx_of_shape (a_shape r);
@@ -69,13 +73,20 @@ Definition sx_of_mult (m : mult) : sx :=
   | MList UNone => SL [SN 2; SL [SN 0]]
   | MList (UAttr k) => SL [SN 2; SL [SN 1; SB k]]
   | MList UData => SL [SN 2; SL [SN 2]]
+  | MList (UKid t) => SL [SN 2; SL [SN 3; SB t]]
+  end.
+
+Definition sx_of_drule (d : drule) : sx :=
+  match d with
+  | DNone => SL [SN 0] | DBytes => SL [SN 1] | DUtf8 => SL [SN 2] | DBytesNE => SL [SN 3]
+  | DByte => SL [SN 4] | DBe32 => SL [SN 5] | DConst c => SL [SN 6; SB c] | DPayload => SL [SN 7]
   end.
 
 Fixpoint sx_of_schema (c : schema) : sx :=
   match c with
   | SNode tags ars d ks =>
     SL [SL (map SB tags); SL (map sx_of_arule ars);
-        SN (match d with DNone => 0 | DBytes => 1 | DUtf8 => 2 end);
+        sx_of_drule d;
         SL (sx_of_krules ks)]
   end
 with sx_of_krules (ks : krules) : list sx :=
@@ -84,7 +95,10 @@ with sx_of_krules (ks : krules) : list sx :=
   | KCons m c ks' => SL [sx_of_mult m; sx_of_schema c] :: sx_of_krules ks'
   end.
 
-(* () -> ((B class  B variant  N dir  N kind  N lossless  N codec_safe  N tags_disjoint  schema) ...) *)
+(* The executable instance uses the IDEAL payload lens pl_id (the payload bytes reproduced
+   exactly): it embodies the hypothesis pl_lossless of the lens theorem; the harness compares the
+   real payload against it as parsed protobuf messages.
+   () -> ((B class  B variant  N dir  N kind  N lossless  N codec_safe  N tags_disjoint  schema) ...) *)
 Definition run_registry (arg : sx) : sx :=
   SL (map (fun e =>
              SL [SB (e_name e); SB (e_variant e); SN (e_dir e); SN (e_kind e);
@@ -100,13 +114,13 @@ Definition run_rt (arg : sx) : sx :=
   | None => sx_err 1
   | Some e =>
     let sc := e_schema e in
-    SL [sx_bool (matches sc n); sx_bool (codec_wf n);
-        match get sc n with
+    SL [sx_bool (matches pl_id sc [] n); sx_bool (codec_wf n);
+        match get pl_id sc n with
         | None => SL []
         | Some v =>
-          match put sc v with
+          match put pl_id sc [] v with
           | None => SL []
-          | Some n' => SL [sx_of_node n'; sx_bool (codec_wf n'); sx_bool (val_wf sc v)]
+          | Some n' => SL [sx_of_node n'; sx_bool (codec_wf n'); sx_bool (val_wf pl_id sc v)]
           end
         end]
   end.
